@@ -21,7 +21,7 @@ import z3
 from vf.engine import runner
 from vf.engine.mm import check_no_mismatch
 from vf.engine.rulesym import SymArch, explore_fn, solver, solver_delta, validate_samples
-from vf.engine.stubs_graph import real_architecture, symbolic_architecture
+from vf.engine.stubs_graph import inner_digraph, real_architecture, split_edges, symbolic_architecture
 from vf.engine.symex import ENGINE
 from vf.engine.xh import kernel_names, replay_kernel, run_kernels
 from vf.oracles.rules import ambiguous_pairs
@@ -77,8 +77,7 @@ def construction_outcome(nodes, cands, k, present, reverse=False):
     except Exception as e:  # noqa: BLE001
         return ("MISMATCH", "a graph", f"{type(e).__name__}: {e}")
     got_nodes = set(g.nodes)
-    got_imp = {(u, v) for u, v, d in g._graph.edges(data=True) if not d["inherits"]}
-    got_hier = {(u, v) for u, v, d in g._graph.edges(data=True) if d["inherits"]}
+    got_imp, got_hier = split_edges(inner_digraph(g))
     want_nodes = {trunc(n, k) for n in nodes}
     want_imp = {(trunc(x, k), trunc(y, k)) for x, y in edges if trunc(x, k) != trunc(y, k) and x in known and y in known}
     want_hier = {(n.rsplit(".", 1)[0], n) for n in want_nodes if "." in n}
@@ -259,7 +258,7 @@ def _no_limit(nodes, cands):
 
     edges = [c for c in cands if ENGINE.branch(("i", c[0], c[1])) == 1]
     g = NetworkxGraph(list(nodes), [AbsoluteImport(x, y) for x, y in edges], None)
-    got_imp = {(u, v) for u, v, d in g._graph.edges(data=True) if not d["inherits"]}
+    got_imp = split_edges(inner_digraph(g))[0]
     if set(g.nodes) != set(nodes) or got_imp != set(edges):
         return ("MISMATCH", f"modules {sorted(nodes)} imports {sorted(edges)}", f"modules {sorted(g.nodes)} imports {sorted(got_imp)}")
     return ("OK", len(edges))
